@@ -362,7 +362,7 @@ func (so *Sorts) strLitDecls() string {
 	sort.Strings(keys)
 	for _, v := range keys {
 		c := so.strLits[v]
-		fmt.Fprintf(&sb, "(declare-const %s Str) ; %q\n(assert (= (slen %s) %d))\n", c, truncate(v, 60), c, len(v))
+		fmt.Fprintf(&sb, "(declare-const %s Str) ; %q\n(assert (= (strlen %s) %d))\n", c, truncate(v, 60), c, len(v))
 		names = append(names, c)
 	}
 	if len(names) > 1 {
